@@ -72,6 +72,12 @@ var execPkgs = map[string]bool{
 	"sync/atomic":     true,
 	"math/bits":       true,
 	"internal/byteorder": true,
+	"slices":             true,
+	"maps":               true,
+	"cmp":                true,
+	"strings":            true,
+	"unicode":            true,
+	"iter":               true,
 }
 
 // Individual functions of other packages executed from SSA.
